@@ -70,6 +70,25 @@ def gen_scalar(rng, kind, word):
 ELEM = {"list_str": "str", "list_int": "int", "list_path": "path", "multi_str": "str"}
 
 
+def assign_positions(rng, fields):
+    """distinct slots 1..n for the explicit positions, written as a non-negative position or, counted from the end
+    (num_args = n + 1 with the executable), as a negative one; now and then a position outside 0..n"""
+    n = len(fields)
+    slots = list(range(1, n + 1))
+    rng.shuffle(slots)
+    far_pos = [n + 1, n + 2, n + 7]
+    far_neg = [-(n + 2), -(n + 3), -(n + 9)]
+    for f in fields:
+        r = rng.random()
+        if r < 0.45:
+            f["position"] = None
+        elif r < 0.52:
+            f["position"] = far_pos.pop() if rng.random() < 0.6 else far_neg.pop()
+        else:
+            sl = slots.pop()
+            f["position"] = sl if rng.random() < 0.6 else sl - (n + 1)
+
+
 def gen_case(rng, *, word, n_max=6, allow_bad_def=0.07, blank_sep_templated=True, blank_sep_dots=False, outargs=True) -> dict:
     n = rng.choice([0, 1, 2, 2, 3, 3, 4, 4, 5, n_max])
     fields = []
@@ -121,21 +140,7 @@ def gen_case(rng, *, word, n_max=6, allow_bad_def=0.07, blank_sep_templated=True
         for f in fields:
             if f["argstr"] and "{" in f["argstr"] and not f["argstr"].endswith("...") and f["kind"] in ELEM and not f["sep"].strip():
                 f["sep"] = rng.choice([",", ":", "+"])
-    # positions: distinct slots 1..n for the explicit ones, written as a non-negative position or, counted from the
-    # end (num_args = n + 1 with the executable), as a negative one; now and then a position outside 0..n
-    slots = list(range(1, n + 1))
-    rng.shuffle(slots)
-    far_pos = [n + 1, n + 2, n + 7]
-    far_neg = [-(n + 2), -(n + 3), -(n + 9)]
-    for f in fields:
-        r = rng.random()
-        if r < 0.45:
-            f["position"] = None
-        elif r < 0.52:
-            f["position"] = far_pos.pop() if rng.random() < 0.6 else far_neg.pop()
-        else:
-            sl = slots.pop()
-            f["position"] = sl if rng.random() < 0.6 else sl - (n + 1)
+    assign_positions(rng, fields)
     if fields and rng.random() < allow_bad_def:
         f = rng.choice(fields)
         f["position"] = rng.choice([0, rng.choice(fields)["position"], 50, -50])
@@ -204,9 +209,13 @@ def _py_type(f):
 
     t = {
         "bool": bool, "str": str, "int": int, "float": float, "path": Path, "list_str": list[str], "list_int": list[int],
-        "list_path": list[Path], "multi_str": MultiInputObj[str], "out": File,
+        "list_path": list[Path], "multi_str": MultiInputObj[str], "out": File, "fbool": File | bool, "ro": str,
     }[f["kind"]]
     return (t | None) if f["optional"] else t
+
+
+def is_nothing(v) -> bool:
+    return isinstance(v, dict) and v.get("nothing") is True
 
 
 def _py_value(f, v):
@@ -227,10 +236,16 @@ def build_class(case):
     for f in case["fields"]:
         assert not keyword.iskeyword(f["name"])
         kw = dict(name=f["name"], type=_py_type(f), argstr=f["argstr"], position=f["position"], sep=f["sep"])
+        if f.get("allowed") is not None:
+            kw["allowed_values"] = list(f["allowed"])
+        if f.get("formatter"):
+            kw["formatter"] = make_formatter(f["formatter"])
+        if f.get("readonly"):
+            kw["readonly"] = True
         if f["out"]:
             if f["optional"]:
                 kw["default"] = None
-            outs.append(shell.outarg(path_template=f"{f['name']}_out.txt", **kw))
+            outs.append(shell.outarg(path_template=out_template(f), keep_extension=(f.get("template") or {}).get("keep", True), **kw))
         else:
             if f["optional"]:
                 kw["default"] = None
@@ -238,6 +253,33 @@ def build_class(case):
                 kw["default"] = False
             ins.append(shell.arg(**kw))
     return shell.define(" ".join(case["exe"]), inputs=ins, outputs=outs, name=f"ArgvCase{next(_uid)}")
+
+
+def out_template(f) -> str:
+    return (f.get("template") or {}).get("tmpl") or f"{f['name']}_out.txt"
+
+
+def formatter_source(spec, fname="fmt") -> str:
+    """Python source of a formatter function described by {"args": [...], "pieces": [...]}."""
+    parts = []
+    for pc in spec["pieces"]:
+        if "lit" in pc:
+            parts.append(repr(pc["lit"]))
+        elif "arg" in pc:
+            parts.append(f"str({spec['args'][pc['arg']]})")
+        elif "field_name" in pc:
+            parts.append(f"{spec['args'][pc['field_name']]}.name")
+        else:
+            i, n = pc["input"]
+            parts.append(f"str({spec['args'][i]}[{n!r}])")
+    return f"def {fname}({', '.join(spec['args'])}):\n    return " + (" + ".join(parts) or "''") + "\n"
+
+
+def make_formatter(spec):
+    ns = {}
+    name = f"fmt_{next(_uid)}"
+    exec(formatter_source(spec, name), ns)  # noqa: S102  (generated from case data, unique per case)
+    return ns[name]
 
 
 def dumper(scratch: Path) -> str:
@@ -277,7 +319,11 @@ def run_impl(case, scratch: Path, *, real_child: bool = False, want_cmdline: boo
     except Exception as e:  # definition rejected
         res["define"] = core.exc_tag(e)
         return res
-    kwargs = {f["name"]: _py_value(f, v) for f, v in zip(case["fields"], case["values"]) if not (v is None and not f["optional"])}
+    kwargs = {
+        f["name"]: _py_value(f, v)
+        for f, v in zip(case["fields"], case["values"])
+        if not (v is None and not f["optional"]) and not is_nothing(v)
+    }
     if case["append"]:
         kwargs["append_args"] = list(case["append"])
     try:
@@ -480,13 +526,14 @@ def implicit_slots(case):
     return out
 
 
-def rule_D26(case) -> bool:
+def rule_D26(case, is_set_fn=None) -> bool:
     """a set unpositioned field receives an implicit slot below the explicit non-negative position of another set field"""
+    is_set_fn = is_set_fn or is_set
     try:
         filled = implicit_slots(case)
     except IndexError:
         return False
-    live = [i for i, (f, v) in enumerate(zip(case["fields"], case["values"])) if is_set(f, v)]
+    live = [i for i, (f, v) in enumerate(zip(case["fields"], case["values"])) if is_set_fn(f, v)]
     for u in live:
         if case["fields"][u]["position"] is None:
             for e in live:
@@ -499,7 +546,7 @@ def rule_D26(case) -> bool:
 def rule_D41(case) -> bool:
     """a set non-bool field with a plain (untemplated) argstr whose value is falsy (0, 0.0; C23: empty string)"""
     for f, v in zip(case["fields"], case["values"]):
-        if is_set(f, v) and f["kind"] in ("int", "float", "str") and "{" not in f["argstr"] and not v:
+        if is_set(f, v) and not f.get("formatter") and f["kind"] in ("int", "float", "str") and "{" not in f["argstr"] and not v:
             return True
     return False
 
@@ -554,3 +601,310 @@ def rule_D15(argv) -> bool:
 def load_corpus(name: str) -> list[dict]:
     p = core.VERIF / "corpus" / "argv" / name
     return [json.loads(l) for l in p.read_text().splitlines() if l.strip()]
+
+
+# ======================================================================================
+# extended features (model: lean/PydraModel/Argv/ModelX.lean, driver op "runx")
+#   kinds fbool (File | bool) and ro (readonly str, value {"nothing": true}); field keys "allowed", "formatter",
+#   "readonly", "template" (outargs); conversions / format specs in argstrs; values with [ ] , { }
+
+import re as _re
+
+BRACKETS = ["[", "]", ",", "[,", ",]", "a[,b", "x,]y"]
+KEY_RX = _re.compile(r"\{([^{}]*)\}")
+
+
+def _split_key(key: str):
+    m = _re.match(r"^([A-Za-z_]\w*)(.*)$", key)
+    return (m.group(1), m.group(2)) if m else (None, None)
+
+
+def values_dict(case) -> dict:
+    """The `values` dict of `_command_args` (Python objects), after the deletions at its top; outargs resolved."""
+    out = {}
+    for f, v in zip(case["fields"], case["values"]):
+        if v is None:
+            continue
+        if is_nothing(v):
+            out[f["name"]] = NOTHING_TEXT
+            continue
+        k = f["kind"]
+        if k == "fbool" or (k == "multi_str" and v == []):
+            continue
+        if k == "out":
+            if v is not True:
+                continue
+            out[f["name"]] = expected_out_path(case, f)
+        elif k == "path":
+            out[f["name"]] = Path(v)
+        elif k == "list_path":
+            out[f["name"]] = [Path(x) for x in v]
+        else:
+            out[f["name"]] = v
+    return out
+
+
+NOTHING_TEXT = "_Nothing.NOTHING"
+
+
+def expected_out_path(case, f) -> str:
+    """Documented value of an outarg left at True: the formatted template's file name inside the job directory."""
+    tmpl = out_template(f)
+    vals = {g["name"]: (render(g["kind"], v) if g["kind"] in ("str", "int", "path") and v is not None and not is_nothing(v) else v) for g, v in zip(case["fields"], case["values"])}
+    return f"{OUT_TAG}/" + Path(tmpl.format(**vals)).name
+
+
+def xenv_of(case) -> dict:
+    """format() of the referenced values for every argstr key with a conversion or a format spec (the `xenv`
+    parameter of the extended model = the contract "Python's str.format")."""
+    vals = values_dict(case)
+    env = {}
+    for f in case["fields"]:
+        for key in KEY_RX.findall(f["argstr"] or ""):
+            name, rest = _split_key(key)
+            if name is None or rest == "":
+                continue
+            try:
+                env[key] = ("{" + key + "}").format(**{name: vals.get(name, "")})
+            except Exception:
+                pass
+    return env
+
+
+def model_query_x(case) -> dict:
+    fields, values = [], []
+    for f, v in zip(case["fields"], case["values"]):
+        k = f["kind"]
+        fields.append(
+            {
+                "name": f["name"], "bool": k == "bool", "multi": k == "multi_str", "argstr": f["argstr"], "position": f["position"], "sep": f["sep"],
+                "readonly": bool(f.get("readonly")), "file_union": k in ("fbool", "out"), "allowed": None if f.get("allowed") is None else [_scalar_json(ELEM.get(k, k), x) for x in f["allowed"]],
+                "formatter": f.get("formatter"), "template": {"tmpl": out_template(f), "keep": (f.get("template") or {}).get("keep", True)} if k == "out" else None,
+            }
+        )
+        if v is None:
+            values.append(None)
+        elif is_nothing(v):
+            values.append({"nothing": True})
+        elif k in ("out", "fbool"):
+            values.append({"b": bool(v)})
+        elif k in ELEM:
+            values.append([_scalar_json(ELEM[k], x) for x in v])
+        else:
+            values.append(_scalar_json("str" if k == "ro" else k, v))
+    return {"op": "runx", "exe": case["exe"], "fields": fields, "values": values, "append": case["append"], "xenv": xenv_of(case), "cd": OUT_TAG}
+
+
+MODEL_ERR_X = dict(MODEL_ERR, notAllowed="init:ValueError", mandatory="ValueError", readonlyGiven="Exception", formatterArg="AttributeError", reformat="ValueError", template="template")
+FORMAT_ERRORS = {"ValueError", "IndexError", "KeyError", "format"}
+
+
+def canon_error(tag: str, braces: bool) -> str:
+    """With braces in values, `str.format` fails with ValueError / IndexError / KeyError depending on the text; the model
+    only says that it fails."""
+    return "format-or-ValueError" if braces and tag in FORMAT_ERRORS else tag
+
+
+def model_obs_x(ans, key="argv", braces=False):
+    if ans is None:
+        return None
+    if "error" in ans:
+        return {"model-error": ans["error"]}
+    r = ans[key]
+    return r["ok"] if "ok" in r else {"error": canon_error(MODEL_ERR_X.get(r["err"], r["err"]), braces)}
+
+
+def has_brace_values(case) -> bool:
+    return any("{" in e or "}" in e for _, e in str_elements(case))
+
+
+def is_set_x(f, v) -> bool:
+    if v is None or f["kind"] == "fbool":
+        return False
+    if f["kind"] == "out" and v is not True:
+        return False
+    if f["argstr"] is None and not f.get("formatter"):
+        return False
+    if f["kind"] == "multi_str" and v == []:
+        return False
+    return True
+
+
+def spec_field_args_x(case, i) -> list[str]:
+    """Documented arguments of field i with the extended features (safe alphabet: the text is cut at blanks)."""
+    f, v = case["fields"][i], case["values"][i]
+    vals = values_dict(case)
+    if f.get("formatter"):
+        spec = f["formatter"]
+        fn = make_formatter(spec)
+        kw = {}
+        for n in spec["args"]:
+            if n == "field":
+                kw[n] = type("F", (), {"name": f["name"]})()
+            elif n == "inputs":
+                kw[n] = vals
+            else:
+                kw[n] = vals[n]  # KeyError = the documented "has to be in inputs": the caller expects an error
+        return fn(**kw).split()
+    argstr = f["argstr"]
+    keys = KEY_RX.findall(argstr)
+    if f["kind"] not in ("ro", "out") and not any(_split_key(k)[1] for k in keys):
+        return spec_field_args(case, i, atomic=False)
+    toks = argstr.replace("...", "").split()
+
+    def sub(tok, own):
+        def rep(m):
+            name, rest = _split_key(m.group(1))
+            val = own if name == f["name"] and own is not None else vals.get(name, "")
+            return ("{" + m.group(1) + "}").format(**{name: val}) if rest else str(val)
+        return KEY_RX.sub(rep, tok)
+
+    own = vals.get(f["name"])
+    if f["kind"] in ELEM and (argstr.endswith("...") or f["kind"] == "multi_str"):
+        return [a for x in own for t in toks for a in ([sub(t, x)] if keys else [t])] if keys else [a for x in own for a in toks + [str(x)]]
+    if keys:
+        return [a for t in toks for a in sub(t, own).split()]
+    return toks + [str(own)] if own not in (None, NOTHING_TEXT) else []
+
+
+def spec_order_x(case):
+    idx = [i for i, (f, v) in enumerate(zip(case["fields"], case["values"])) if is_set_x(f, v)]
+    P = lambda i: case["fields"][i]["position"]
+    return sorted((i for i in idx if P(i) is not None and P(i) >= 0), key=P) + [i for i in idx if P(i) is None] + sorted((i for i in idx if P(i) is not None and P(i) < 0), key=P)
+
+
+def expected_error_x(case):
+    """Errors the documentation promises for the extended features (None = a command is built)."""
+    for f, v in zip(case["fields"], case["values"]):
+        if f.get("allowed") is not None and v is not None and not is_nothing(v):
+            if any(x not in f["allowed"] for x in (v if isinstance(v, list) else [v])):
+                return "init:ValueError"
+    vals = values_dict(case)
+    for f, v in zip(case["fields"], case["values"]):
+        if not is_set_x(f, v):
+            continue
+        if f.get("readonly") and not is_nothing(v):
+            return "Exception"
+        if f.get("formatter") and any(n not in ("field", "inputs") and n not in vals for n in f["formatter"]["args"]):
+            return "AttributeError"
+    return None
+
+
+def spec_argv_x(case):
+    out = list(case["exe"])
+    for i in spec_order_x(case):
+        out += spec_field_args_x(case, i)
+    return out + list(case["append"])
+
+
+def gen_case_x(rng, *, word=None) -> dict:
+    """A C22 case (safe alphabet) decorated with extended features."""
+    word = word or safe_word
+    c = gen_case(rng, word=word, allow_bad_def=0.0)
+    fields, values = c["fields"], c["values"]
+    for f in fields:
+        if f["kind"] == "out":  # outargs: explicit template, sometimes referring to a mandatory str/int field
+            refs = [g["name"] for g in fields if g["kind"] in ("str", "int") and not g["optional"]]
+            if refs and rng.random() < 0.6:
+                f["template"] = {"tmpl": rng.choice(["{%s}_out.txt", "res_{%s}.dat", "dir/{%s}.nii"]) % rng.choice(refs), "keep": True}
+            else:
+                f["template"] = {"tmpl": f"{f['name']}_out.txt", "keep": True}
+    scalars = [i for i, f in enumerate(fields) if f["kind"] in ("str", "int", "float", "path") and f["argstr"] is not None]
+    for i in scalars:
+        f, v = fields[i], values[i]
+        r = rng.random()
+        flag = rng.choice(["-", "--"]) + rng.choice(["q", "w", "fmt", "lvl"])
+        if r < 0.18 and f["kind"] in ("int", "float") and not f["optional"]:
+            spec = rng.choice([":03d", ":d", ":>4", "!r", "!s"]) if f["kind"] == "int" else rng.choice([":.2f", ":.0f", ":8.3f", "!r", ":g"])
+            f["argstr"] = flag + rng.choice(["=", " "]) + "{" + f["name"] + spec + "}"
+        elif r < 0.33 and f["kind"] in ("str", "int") and v is not None:
+            pool = [v] + [gen_scalar(rng, f["kind"], word) for _ in range(2)]
+            f["allowed"] = pool if rng.random() < 0.85 else pool[1:]
+        elif r < 0.5:
+            others = [g["name"] for g, w in zip(fields, values) if g is not f and g["kind"] in ("str", "int") and (w is not None or rng.random() < 0.15)]
+            args = rng.sample(["field", "inputs", f["name"]] + others[:2], k=rng.randint(1, min(3, 3 + len(others[:2]))))
+            pieces = [{"lit": rng.choice(["-F ", "--fm=", " x ", "  pre  "])}]
+            for j, a in enumerate(args):
+                if a == "field":
+                    pieces.append({"field_name": j})
+                elif a == "inputs":
+                    present = [g["name"] for g, w in zip(fields, values) if g["kind"] in ("str", "int") and w is not None]
+                    if present:
+                        pieces.append({"input": [j, rng.choice(present)]})
+                else:
+                    pieces.append({"arg": j})
+                pieces.append({"lit": rng.choice([" ", "_", "  ", "/"])})
+            f["formatter"] = {"args": args, "pieces": pieces}
+            if rng.random() < 0.5:
+                f["argstr"] = None
+    if rng.random() < 0.3:
+        fields.append({"name": "fu", "kind": "fbool", "optional": False, "argstr": rng.choice(["-u", "--union"]), "position": None, "sep": " ", "out": False})
+        values.append(rng.random() < 0.5)
+    if rng.random() < 0.3:
+        refs = [g["name"] for g in fields if g["kind"] in ("str", "int")]
+        body = "_".join("{" + n + "}" for n in rng.sample(refs, k=min(len(refs), rng.randint(1, 2)))) if refs else "const"
+        fields.append({"name": "fr", "kind": "ro", "optional": False, "argstr": rng.choice(["-r ", "--ro="]) + body, "position": rng.choice([None, -len(fields) - 5]), "sep": " ", "out": False, "readonly": True})
+        values.append({"nothing": True} if rng.random() < 0.9 else "given")
+    order = sorted(range(len(fields)), key=lambda i: fields[i]["out"])  # outargs last (stable)
+    c["fields"], c["values"] = [fields[i] for i in order], [values[i] for i in order]
+    assign_positions(rng, c["fields"])
+    return c
+
+
+def field_value_texts(case, i):
+    """The texts `_format_arg` substitutes for field i's own `{name}`: the value, the joined list, or each element."""
+    f, v = case["fields"][i], case["values"][i]
+    k = f["kind"]
+    if k in ELEM:
+        elems = [render(ELEM[k], x) for x in v]
+        return elems if (f["argstr"].endswith("...") or k == "multi_str") else [f["sep"].join(elems)]
+    return [render(k, v)]
+
+
+def rule_D43(case) -> bool:
+    """a str/Path value (or joined list) substituted into a templated argstr contains "[," or ",]"
+    (argstr_formatting's bracket clean-up removes the comma)"""
+    for i in sorted({i for i, _ in str_elements(case)}):
+        f = case["fields"][i]
+        if "{" in f["argstr"] and any("[," in t or ",]" in t for t in field_value_texts(case, i)):
+            return True
+    return False
+
+
+def rule_D44(case) -> bool:
+    """a str/Path value (or joined list) containing "{" or "}" is substituted into the TEXT of a templated argstr before
+    str.format runs (scalar fields, MultiInputObj elements, lists without '...')"""
+    for i in sorted({i for i, _ in str_elements(case)}):
+        f = case["fields"][i]
+        if "{" not in f["argstr"]:
+            continue
+        if f["kind"] in ELEM and f["kind"] != "multi_str" and f["argstr"].endswith("..."):
+            continue  # `...` lists are formatted by str.format directly: braces in the elements are data
+        if any("{" in t or "}" in t for t in field_value_texts(case, i)):
+            return True
+    return False
+
+
+BRACKET_WORDS = ["a[,b", "x,]y", "[", "]", ",", "[,", ",]", "[x]", "a[", "],", "[,]"]
+
+
+def decorate_brackets_braces(rng, case, p=0.5):
+    """Replace some str elements by texts with brackets / commas / braces."""
+    names = [f["name"] for f in case["fields"] if f["kind"] in ("str", "int")]
+
+    def word(f):
+        if rng.random() < 0.5:
+            return rng.choice(BRACKET_WORDS) + (safe_word(rng, 0, 2) if rng.random() < 0.5 else "")
+        if f["kind"] == "multi_str" and f["argstr"] and "{" in f["argstr"]:
+            return safe_word(rng)
+        inj = "{" + rng.choice(names + ["zz"]) + "}"
+        return rng.choice(["{", "}", "{}", "a{b", "x}y", inj, "p" + inj + "q", "{0}"])
+
+    for j, (f, v) in enumerate(zip(case["fields"], case["values"])):
+        if v is None or rng.random() > p:
+            continue
+        if f["kind"] == "str":
+            case["values"][j] = word(f)
+        elif f["kind"] in ("list_str", "multi_str") and v:
+            case["values"][j] = [word(f) if rng.random() < 0.6 else x for x in v]
+    return case
